@@ -708,6 +708,7 @@ struct Out {
     nonempty: usize,
     features: BTreeMap<String, usize>,
     direct: Vec<Value>,
+    unparsable: usize,
 }
 
 fn run_case(out: &mut Out, si: usize, sdl: &str, ts: &graphql_type_system::Schema<std::borrow::Cow<'_, str>, nitrogql_ast::base::Pos>,
@@ -722,7 +723,7 @@ fn run_case(out: &mut Out, si: usize, sdl: &str, ts: &graphql_type_system::Schem
             out.direct.push(json!({"what": format!("check_operation_document panicked: {}", p), "classes": [], "schema": sdl, "doc": text}));
             None
         }
-        Ok(Err(_e)) => None, // does not parse: not a case for the checker (the generators only produce parsable text)
+        Ok(Err(_e)) => { out.unparsable += 1; None } // does not parse: not a case for the checker (the generators only produce parsable text)
         Ok(Ok((doc_term, errs))) => {
             for e in &errs { *out.by_kind.entry(kind_name(&e.message)).or_insert(0) += 1; }
             if !errs.is_empty() { out.nonempty += 1; }
@@ -804,7 +805,7 @@ fn main() {
         return;
     }
     let mut out = Out { schemas: vec![], terms: vec![], descr: vec![], distinct: HashSet::new(), by_kind: BTreeMap::new(), by_rule: BTreeMap::new(),
-        by_mut: BTreeMap::new(), silent_faults: 0, nonempty: 0, features: BTreeMap::new(), direct: vec![] };
+        by_mut: BTreeMap::new(), silent_faults: 0, nonempty: 0, features: BTreeMap::new(), direct: vec![], unparsable: 0 };
 
     // 1. corpus
     let mut n_corpus = 0;
@@ -927,6 +928,7 @@ fn main() {
             "faults_by_mutation(injected, document flagged)": out.by_mut.iter().map(|(k, v)| (k.clone(), json!([v.0, v.1]))).collect::<BTreeMap<_, _>>(),
             "mutated_documents_without_any_diagnostic": out.silent_faults,
             "mutation_attempts_not_applicable": relabel,
+            "documents_dropped_because_they_do_not_parse": out.unparsable,
             "coercion_features_used": out.features,
         },
         "direct_failures": out.direct,
